@@ -3,7 +3,7 @@
 # The checks rewrite /verif/evidence/<id>.json on every run (they must: that is the interface), so the
 # evidence and replay directories are saved before the seeded run and restored after it - an evidence file
 # written against a seeded tree must never be left behind or committed (see DESIGN.md "Corrected false alarms").
-d="$1"; shift
+d=$(cd "$1" && pwd) || exit 2; shift
 cd /repo && [ -z "$(git status --porcelain)" ] || { echo "REFUSING: /repo has uncommitted changes"; exit 3; }
 save=$(mktemp -d /var/tmp/verif-evidence-save.XXXXXX)
 cp -a /verif/evidence "$save/evidence"; [ -d /verif/replays ] && cp -a /verif/replays "$save/replays"
